@@ -64,6 +64,8 @@ type txBuilder struct {
 	// checks issued in this scenario: id -> raw
 	checks map[string]*issuedCheck
 	height func() uint64
+	// check runs CheckTx on the node under observation (nil: no probing); used to find the tightest limit the node accepts
+	check func(raw []byte) uint32
 }
 
 type issuedCheck struct {
@@ -639,7 +641,83 @@ func spec0Nonce(b *txBuilder, spec *TxSpec, sender types.Address) uint64 {
 }
 
 // Build turns a spec into signed bytes.
+// tightLimit: a slippage limit given as "tight" (optionally "tight+<pip>" / "tight-<pip>") is replaced by the tightest value that the
+// node's own CheckTx accepts on the current state, found by bisection over probe transactions: the largest accepted minimum-to-buy
+// of a sell, the smallest accepted maximum-to-sell of a buy. Delivered right afterwards on the same state, such a transaction must
+// still honour its limit (C15) -- whatever estimate CheckTx and DeliverTx share or fail to share.
+func (b *txBuilder) tightLimit(spec *TxSpec) {
+	if b.check == nil || spec.Args == nil {
+		return
+	}
+	key := ""
+	for _, k := range []string{"max", "min"} {
+		if q, ok := spec.Args[k].(string); ok && strings.HasPrefix(q, "tight") {
+			key = k
+		}
+	}
+	if key == "" {
+		return
+	}
+	q := spec.Args[key].(string)
+	off := big.NewInt(0)
+	if len(q) > 5 {
+		off, _ = new(big.Int).SetString(q[5:], 10)
+		if off == nil {
+			off = big.NewInt(0)
+		}
+	}
+	accept := func(v *big.Int) bool {
+		s2 := *spec
+		s2.ID = spec.ID + "~probe"
+		s2.Args = map[string]interface{}{}
+		for k, x := range spec.Args {
+			s2.Args[k] = x
+		}
+		s2.Args[key] = v.String()
+		bt := b.Build(s2)
+		delete(b.built, s2.ID)
+		return b.check(bt.Raw) == 0
+	}
+	lo, hi := big.NewInt(0), new(big.Int).Exp(big.NewInt(10), big.NewInt(30), nil)
+	var res *big.Int
+	if key == "max" { // smallest accepted maximum
+		if !accept(hi) {
+			spec.Args[key] = hi.String()
+			return
+		}
+		for new(big.Int).Sub(hi, lo).Cmp(big.NewInt(1)) > 0 {
+			mid := new(big.Int).Rsh(new(big.Int).Add(lo, hi), 1)
+			if accept(mid) {
+				hi = mid
+			} else {
+				lo = mid
+			}
+		}
+		res = hi
+	} else { // largest accepted minimum
+		if !accept(lo) {
+			spec.Args[key] = "0"
+			return
+		}
+		for new(big.Int).Sub(hi, lo).Cmp(big.NewInt(1)) > 0 {
+			mid := new(big.Int).Rsh(new(big.Int).Add(lo, hi), 1)
+			if accept(mid) {
+				lo = mid
+			} else {
+				hi = mid
+			}
+		}
+		res = lo
+	}
+	res = new(big.Int).Add(res, off)
+	if res.Sign() < 0 {
+		res = big.NewInt(0)
+	}
+	spec.Args[key] = res.String()
+}
+
 func (b *txBuilder) Build(spec TxSpec) *BuiltTx {
+	b.tightLimit(&spec)
 	if spec.Repeat != "" {
 		prev, ok := b.built[spec.Repeat]
 		if !ok {
